@@ -64,6 +64,8 @@ inductive Stop where
   | exit (code : Nat)
   | encErr (n : Nat)
   | unspecified
+  /-- `read_line` failed: the next line of standard input is not UTF-8 -/
+  | inputErr
 deriving Repr, DecidableEq
 
 abbrev M (N : Type) := St N × World
@@ -110,6 +112,7 @@ def popWrap (m : M N) (i : Nat) : Res (N × M N) :=
     if (m.1.stacks 0).isEmpty then
       match m.2.stdin with
       | [] => let r := popRaw m.1 0; .ok (r.1, (r.2, m.2))
+      | [] :: _ => .error (.inputErr, m.2)      -- an undecodable line (decodable lines are never empty)
       | line :: rest =>
         let r := popRaw (setStack m.1 0 (lineStack line)) 0
         .ok (r.1, (r.2, { m.2 with stdin := rest }))
